@@ -13,7 +13,7 @@ import (
 func init() {
 	register(&PropRules{
 		ID:      "C15",
-		Explain: "Structural necessary conditions of 'operations touch only their target; failures and read-only calls change nothing': (C15.1) the read-only store API (Exists, Authenticate, List, ListFull, Check, NewDir*, and the config loader) reaches no create/write/rename/delete/mkdir/sync primitive over the whole-program call graph, and the set of store functions that do is exactly the mutator set; (C15.2) the SASL callback, the LDAP bind handler, basic-auth and /api/authenticate reach the store only through Store.Authenticate, the LDAP server registers only a bind function, and the dispatcher's authenticate step reaches no store mutator by call edges (only through the upgrade enqueue); (C15.3) set-admin performs stat + rename (+ directory fsync) only; (C15.4) the aux lines are copied on every path to the rename; (C15.5) after the creating open of the final name every error exit removes that name again; (C15.6) no exit after the rename can report failure.",
+		Explain: "Structural necessary conditions of 'operations touch only their target; failures and read-only calls change nothing': (C15.1) the read-only store API (Exists, Authenticate, List, ListFull, Check, NewDir*, and the config loader) reaches no create/write/rename/delete/mkdir/sync primitive over the whole-program call graph, and the set of store functions that do is exactly the mutator set; (C15.2) the SASL callback, the LDAP bind handler, basic-auth and /api/authenticate reach the store only through Store.Authenticate, the LDAP server registers only a bind function, and the dispatcher's authenticate step reaches no store mutator by call edges (only through the upgrade enqueue); (C15.3) set-admin performs stat + rename (+ directory fsync) only; (C15.4) the aux lines are copied on every path to the rename; (C15.5) after the creating open of the final name every error exit removes that name again; (C15.6) no exit after the rename can report failure. Round 3 (C15.5): success is reported only after the rename and nothing unlinks the final name after it.",
 		Undec:   []string{"byte-level equality of the directory before/after at run time", "which system calls fail when (only: every error exit is clean)", "the content of auxiliary data"},
 		Run:     runC15,
 		Floors:  map[string]int{"C15.1": 6, "C15.2": 5, "C15.3": 1, "C15.4": 1, "C15.5": 1, "C15.6": 1},
